@@ -18,6 +18,7 @@
 #include "myth_sleep_queue_func.h"
 #include "myth_sched_func.h"
 #include "myth_spinlock_func.h"
+#include "myth_verif.h"
 
 //#define ALIGN_MUTEX
 
@@ -73,9 +74,13 @@ MYTH_CTX_CALLBACK void myth_block_on_queue_cb(void *arg1,void *arg2,void *arg3) 
      after it enters the queue and access
      cur data structure before the context
      has been saved  */
+  MYTH_VERIF_ALIGN();
+  MYTH_VERIF_POINT(BQ_CB_BEFORE_ENQ);
   myth_sleep_queue_enq_th(q, cur);
+  MYTH_VERIF_POINT(BQ_CB_AFTER_ENQ);
   if (m) {
     myth_mutex_unlock_body(m);
+    MYTH_VERIF_POINT(BQ_CB_AFTER_UNLOCK);
   }
 }
 
@@ -85,6 +90,7 @@ static inline void myth_block_on_queue(myth_sleep_queue_t * q,
   myth_running_env_t env = myth_get_current_env();
   myth_thread_t cur = env->this_thread;
   /* pop next thread to run */
+  MYTH_VERIF_POINT(BQ_BEFORE_POP);
   myth_thread_t next = myth_queue_pop(&env->runnable_q);
   /* next context to run. either another thread
      or the scheduler */
@@ -120,7 +126,10 @@ MYTH_CTX_CALLBACK void myth_block_on_stack_cb(void *arg1,void *arg2,void *arg3) 
      after it enters the queue and access
      cur data structure before the context
      has been saved  */
+  MYTH_VERIF_ALIGN();
+  MYTH_VERIF_POINT(BS_CB_BEFORE_PUSH);
   myth_sleep_stack_push_th(s, cur);
+  MYTH_VERIF_POINT(BS_CB_AFTER_PUSH);
   if (m) {
     myth_mutex_unlock_body(m);
   }
@@ -133,6 +142,7 @@ static inline void myth_block_on_stack(myth_sleep_stack_t * s,
   myth_running_env_t env = myth_get_current_env();
   myth_thread_t cur = env->this_thread;
   /* pop next thread to run */
+  MYTH_VERIF_POINT(BS_BEFORE_POP);
   myth_thread_t next = myth_queue_pop(&env->runnable_q);
   /* next context to run. either another thread
      or the scheduler */
@@ -192,9 +202,12 @@ static inline int myth_wake_one_from_queue(myth_sleep_queue_t * q,
     to_wake = myth_sleep_queue_deq_th(q);
     if (to_wake) break;
     failed++;
+    MYTH_VERIF_SPIN(WAKE1_SPIN);
     empty_loop(100);
   }
   /* wake up this guy */
+  if (failed) MYTH_VERIF_COV(WAKE1_WAITED);
+  MYTH_VERIF_POINT(WAKE1_AFTER_DEQ);
   to_wake->env = env;
   /* do any action after dequeueing from the sleep queue
      but before really putting it in the run queue.
@@ -210,7 +223,9 @@ static inline int myth_wake_one_from_queue(myth_sleep_queue_t * q,
     callback(arg);
   }
   /* put the thread to wake up in run queue */
+  MYTH_VERIF_POINT(WAKE1_AFTER_CB);
   myth_queue_push(&env->runnable_q, to_wake);
+  MYTH_VERIF_POINT(WAKE1_AFTER_PUSH);
   return failed;
 }
 
@@ -262,7 +277,9 @@ static inline int myth_wake_many_from_queue(myth_sleep_queue_t * q,
     myth_thread_t to_wake = 0;
     while (!to_wake) {
       to_wake = myth_sleep_queue_deq_th(q);
+      if (!to_wake) { MYTH_VERIF_COV(WAKENQ_WAITED); MYTH_VERIF_SPIN(WAKENQ_SPIN); }
     }
+    MYTH_VERIF_POINT(WAKENQ_AFTER_DEQ);
     to_wake->env = env;
     to_wake->next = 0;
     if (to_wake_tail) {
@@ -286,11 +303,13 @@ static inline int myth_wake_many_from_queue(myth_sleep_queue_t * q,
     callback(arg);
   }
   /* put the thread to wake up in run queue */
+  MYTH_VERIF_POINT(WAKENQ_BEFORE_PUSH);
   myth_thread_t to_wake = to_wake_head;
   for (i = 0; i < n; i++) {
     assert(to_wake);
     myth_thread_t next = to_wake->next;
     myth_queue_push(&env->runnable_q, to_wake);
+    MYTH_VERIF_POINT(WAKENQ_AFTER_PUSH);
     to_wake = next;
   }
   return n;
@@ -305,7 +324,9 @@ static inline int myth_wake_if_any_from_queue(myth_sleep_queue_t * q,
   myth_running_env_t env = myth_get_current_env();
   myth_thread_t to_wake = myth_sleep_queue_deq_th(q);
   /* no threads sleeping, done */
+  if (!to_wake) MYTH_VERIF_COV(WAKEANY_EMPTY);
   if (!to_wake) return 0;	/* I did not wake up any */
+  MYTH_VERIF_POINT(WAKEANY_AFTER_DEQ);
   to_wake->env = env;
   /* any action after dequeue but before really waking him up */
   if (callback) {
@@ -313,6 +334,7 @@ static inline int myth_wake_if_any_from_queue(myth_sleep_queue_t * q,
   }
   /* put the thread that just woke up to the run queue */
   myth_queue_push(&env->runnable_q, to_wake);
+  MYTH_VERIF_POINT(WAKEANY_AFTER_PUSH);
   return 1;			/* I woke up one */
 }
 
@@ -376,7 +398,9 @@ static inline int myth_wake_many_from_stack(myth_sleep_stack_t * s,
     myth_thread_t to_wake = 0;
     while (!to_wake) {
       to_wake = myth_sleep_stack_pop_th(s);
+      if (!to_wake) { MYTH_VERIF_COV(WAKENS_WAITED); MYTH_VERIF_SPIN(WAKENS_SPIN); }
     }
+    MYTH_VERIF_POINT(WAKENS_AFTER_POP);
     to_wake->env = env;
     to_wake->next = 0;
     if (to_wake_tail) {
@@ -400,11 +424,13 @@ static inline int myth_wake_many_from_stack(myth_sleep_stack_t * s,
     callback(arg);
   }
   /* put the thread to wake up in run queue */
+  MYTH_VERIF_POINT(WAKENS_BEFORE_PUSH);
   myth_thread_t to_wake = to_wake_head;
   for (i = 0; i < n; i++) {
     assert(to_wake);
     myth_thread_t next = to_wake->next;
     myth_queue_push(&env->runnable_q, to_wake);
+    MYTH_VERIF_POINT(WAKENS_AFTER_PUSH);
     to_wake = next;
   }
   return n;
@@ -431,13 +457,16 @@ static inline int
 myth_once_body(myth_once_t * once_control, void (*init_routine)(void)) {
   int s = once_control->state;
   if (s == myth_once_state_init) {
+   MYTH_VERIF_POINT(ONCE_BEFORE_CAS);
    if (myth_once_try_set(once_control, myth_once_state_init,
 			 myth_once_state_in_progress)) {
      init_routine();
+     MYTH_VERIF_POINT(ONCE_AFTER_INIT);
      once_control->state = myth_once_state_completed;
      return 0;
    }
   }
+  if (once_control->state != myth_once_state_completed) MYTH_VERIF_COV(ONCE_WAITING);
   myth_once_wait_until(once_control, myth_once_state_completed);
   return 0;
 }
@@ -472,6 +501,7 @@ static inline int myth_mutex_trylock_body(myth_mutex_t * mutex) {
   /* TODO: spin block */
   while (1) {
     long s = mutex->state;
+    MYTH_VERIF_POINT(MTX_TRYLOCK_BEFORE_CAS);
     /* check the lock bit */
     if (s & 1) {
       /* lock bit set. do nothing and go home */
@@ -522,6 +552,7 @@ static inline int myth_mutex_lock_body(myth_mutex_t * mutex) {
   int failed = 0;
   while (1) {
     long s = mutex->state;
+    MYTH_VERIF_POINT(MTX_LOCK_BEFORE_CAS);
     assert(s >= 0);
     /* check lock bit */
     if ((s & 1) == 0) {
@@ -538,11 +569,14 @@ static inline int myth_mutex_lock_body(myth_mutex_t * mutex) {
       /* lock bit set. indicate I am going to block on it.
 	 I am competing with a thread who is trying to unlock it */
       if (__sync_bool_compare_and_swap(&mutex->state, s, s + 2)) {
+	MYTH_VERIF_COV(MTX_LOCK_BLOCKS);
+	MYTH_VERIF_POINT(MTX_LOCK_AFTER_SEAT);
 	/* OK, I reserved a seat in the queue. even if the mutex is
 	   unlocked by another thread right after the above cas, 
 	   he will learn I am going to be in the queue soon, so should
 	   wake me up */
 	myth_block_on_queue(mutex->sleep_q, 0);
+	MYTH_VERIF_POINT(MTX_LOCK_RESUMED);
       }
       failed++;
     }
@@ -582,6 +616,7 @@ myth_mutex_timedlock_body(myth_mutex_t * mutex,
 static void * myth_mutex_clear_lock_bit(void * mutex_) {
   myth_mutex_t * mutex = mutex_;
   assert(mutex->state & 1);
+  MYTH_VERIF_POINT(MTX_CLEAR_BIT);
   __sync_fetch_and_sub(&mutex->state, 1);
   return 0;
 }
@@ -591,6 +626,7 @@ static inline int myth_mutex_unlock_body(myth_mutex_t * mutex) {
   int failed = 0;
   while (1) {
     long s = mutex->state;
+    MYTH_VERIF_POINT(MTX_UNLOCK_BEFORE_CAS);
     /* the mutex must be locked now (by me). 
        TODO: a better diagnosis message */
     if (!(s & 1)) {
@@ -606,6 +642,8 @@ static inline int myth_mutex_unlock_body(myth_mutex_t * mutex) {
 	 on the queue. decrement it (while still keeping the lock bit)
 	 wake up one, and then clear the lock bit */
       if (__sync_bool_compare_and_swap(&mutex->state, s, s - 2)) {
+	MYTH_VERIF_COV(MTX_UNLOCK_WAKES);
+	MYTH_VERIF_POINT(MTX_UNLOCK_AFTER_DEC);
 	failed += myth_wake_one_from_queue(mutex->sleep_q, 
                                            myth_mutex_clear_lock_bit, mutex);
 	break;
@@ -796,6 +834,7 @@ static inline int myth_cond_signal_body(myth_cond_t * cond) {
 
 static inline int myth_cond_wait_body(myth_cond_t * cond, myth_mutex_t * mutex) {
   myth_block_on_queue(cond->sleep_q, mutex);
+  MYTH_VERIF_POINT(COND_WAIT_RESUMED);
   return myth_mutex_lock(mutex);
 }
 
@@ -852,6 +891,7 @@ static inline int myth_barrier_destroy_body(myth_barrier_t * barrier) {
 static inline int myth_barrier_wait_body(myth_barrier_t * barrier) {
   while (1) {
     long c = barrier->state;
+    MYTH_VERIF_POINT(BAR_BEFORE_CAS);
     if (c >= barrier->n_threads) {
       /* TODO: set errno and return */
       fprintf(stderr, 
@@ -862,10 +902,13 @@ static inline int myth_barrier_wait_body(myth_barrier_t * barrier) {
     if (! __sync_bool_compare_and_swap(&barrier->state, c, c + 1)) {
       continue;
     }
+    MYTH_VERIF_POINT(BAR_AFTER_CAS);
     if (c == barrier->n_threads - 1) {
       /* I am the last one. wake up all guys.
 	 TODO: spin block */
       barrier->state = 0;	/* reset state */
+      MYTH_VERIF_COV(BAR_LAST);
+      MYTH_VERIF_POINT(BAR_AFTER_RESET);
       //myth_wake_many_from_queue(barrier->sleep_q, 0, 0, c);
       myth_wake_many_from_stack(barrier->sleep_s, 0, 0, c);
       return MYTH_BARRIER_SERIAL_THREAD;
@@ -929,7 +972,9 @@ myth_join_counter_init_body(myth_join_counter_t * jc,
 static inline int myth_join_counter_wait_body(myth_join_counter_t * jc) {
   while (1) {
     long s = jc->state;
+    MYTH_VERIF_POINT(JC_WAIT_BEFORE_CAS);
     if ((s & jc->state_mask) == jc->n_threads) {
+      MYTH_VERIF_COV(JC_WAIT_IMMEDIATE);
       return 0;
     }
     /* try to indicate I am going to sleep. */
@@ -939,7 +984,9 @@ static inline int myth_join_counter_wait_body(myth_join_counter_t * jc) {
 	 have to keep going */
       continue;
     }
+    MYTH_VERIF_POINT(JC_WAIT_AFTER_CAS);
     myth_block_on_queue(jc->sleep_q, 0);
+    MYTH_VERIF_POINT(JC_WAIT_RESUMED);
     assert((jc->state & jc->state_mask) == jc->n_threads);
   }
 }
@@ -947,6 +994,7 @@ static inline int myth_join_counter_wait_body(myth_join_counter_t * jc) {
 static inline int myth_join_counter_dec_body(myth_join_counter_t * jc) {
   while (1) {
     long s = jc->state;
+    MYTH_VERIF_POINT(JC_DEC_BEFORE_CAS);
     long n_decs = s & jc->state_mask;
     if (n_decs >= jc->n_threads) {
       /* TODO: set errno and return */
@@ -963,6 +1011,7 @@ static inline int myth_join_counter_dec_body(myth_join_counter_t * jc) {
       /* I am the last one. wake up all guys.
 	 TODO: spin block */
       long n_threads_to_wake = (s >> jc->n_threads_bits);
+      MYTH_VERIF_POINT(JC_DEC_BEFORE_WAKE);
       myth_wake_many_from_queue(jc->sleep_q, 0, 0, n_threads_to_wake);
     }
     break;
@@ -1023,7 +1072,9 @@ static inline int myth_felock_wait_and_lock_body(myth_felock_t * fe,
 static inline int myth_felock_mark_and_signal_body(myth_felock_t * fe,
 						   int status_to_signal) {
   fe->status = status_to_signal;
+  MYTH_VERIF_POINT(FE_AFTER_STATUS);
   myth_cond_signal(&fe->cond[status_to_signal]);
+  MYTH_VERIF_POINT(FE_AFTER_SIGNAL);
   return myth_mutex_unlock_body(fe->mutex);
 }
 
@@ -1058,6 +1109,8 @@ MYTH_CTX_CALLBACK
 void myth_uncond_wait_cb(void *arg1,void *arg2,void *arg3) {
   myth_uncond_t * u = arg1;
   myth_thread_t cur = arg2;
+  MYTH_VERIF_ALIGN();
+  MYTH_VERIF_POINT(UNC_CB_BEFORE_PUB);
   u->th = cur;
 }
 
@@ -1065,6 +1118,7 @@ static inline int myth_uncond_wait_body(myth_uncond_t * u) {
   myth_running_env_t env = myth_get_current_env();
   myth_thread_t cur = env->this_thread;
   /* pop next thread to run */
+  MYTH_VERIF_POINT(UNC_BEFORE_POP);
   myth_thread_t next = myth_queue_pop(&env->runnable_q);
   /* next context to run. either another thread
      or the scheduler */
@@ -1088,12 +1142,16 @@ static inline int myth_uncond_wait_body(myth_uncond_t * u) {
 static inline int myth_uncond_signal_body(myth_uncond_t * u) {
   myth_running_env_t env = myth_get_current_env();
   myth_thread_t to_wake = u->th;
+  if (!to_wake) MYTH_VERIF_COV(UNC_SIG_EARLY);
   while (!to_wake) {
     to_wake = u->th;
+    if (!to_wake) MYTH_VERIF_SPIN(UNC_SIG_SPIN);
   }
   to_wake->env = env;
   u->th = 0;
+  MYTH_VERIF_POINT(UNC_SIG_AFTER_CLEAR);
   myth_queue_push(&env->runnable_q, to_wake);
+  MYTH_VERIF_POINT(UNC_SIG_AFTER_PUSH);
   return 0;
 }
 
